@@ -7,6 +7,7 @@ import (
 	"errors"
 	"fmt"
 	"io"
+	"math"
 	"os"
 	"strconv"
 	"strings"
@@ -381,9 +382,17 @@ func addScriptFiles(info *nfpm.Info, rpm *rpmpack.RPM) error {
 // TODO: pass mtime down in all content types
 func createFilesInsideRPM(info *nfpm.Info, rpm *rpmpack.RPM) (err error) {
 	mtime := modtime.Get(info.MTime)
+	if err := checkTime(mtime, "the package"); err != nil {
+		return err
+	}
 	for _, content := range info.Contents {
 		if content.Packager != "" && content.Packager != packagerName {
 			continue
+		}
+		if content.Type != files.TypeDir && content.Type != files.TypeImplicitDir && content.FileInfo != nil {
+			if err := checkTime(content.FileInfo.MTime, content.Destination); err != nil {
+				return err
+			}
 		}
 
 		var file *rpmpack.RPMFile
@@ -428,6 +437,15 @@ func createFilesInsideRPM(info *nfpm.Info, rpm *rpmpack.RPM) (err error) {
 
 	}
 
+	return nil
+}
+
+// checkTime refuses a time which the 32 bit wide time fields of an rpm header
+// cannot hold: it would be stored as another time. An unset time is none.
+func checkTime(t time.Time, what string) error {
+	if u := t.Unix(); !t.IsZero() && (u < 0 || u > math.MaxUint32) {
+		return fmt.Errorf("rpm cannot store the time %s of %s: it is not between 1970 and 2106", t.UTC().Format(time.RFC3339), what)
+	}
 	return nil
 }
 
